@@ -323,10 +323,12 @@ def gen_confine(rnd):
         if state == 'stopped' and mine == 'a':
             state = 'active'
     sc = rnd.random() < .5
+    # the command goes through /bin/sh -c for some watchers: the worker is then a shell with the real program below it
+    sh = rnd.choice([None, None, 'a', 'b', 'ab'])
     return {'watchers': [{'name': 'a', 'numprocesses': 2, 'graceful_timeout': 0.3, 'beh': [{'*': ['ignore']}],
-                          'kids': kids, 'stop_children': sc},
+                          'kids': kids, 'stop_children': sc, 'shell': bool(sh and 'a' in sh)},
                          {'name': 'b', 'numprocesses': 1, 'graceful_timeout': 0.3, 'beh': [{'*': ['ignore']}],
-                          'kids': kids, 'stop_children': sc}],
+                          'kids': kids, 'stop_children': sc, 'shell': bool(sh and 'b' in sh)}],
             'state': state, 'reqs': reqs}
 
 
